@@ -367,7 +367,7 @@ def numeric_half(R, mod):
                                          paths=paths, spec=spec, vio=vio, reach=reach, has_fp=has_fp, real=real,
                                          n_variants=len(variants))
                         txt = pyk.smt2(pre + [vio], 'QF_BVFP' if has_fp else 'QF_BV')
-                        dk = (fname if False else info['rounding'], txt)
+                        dk = txt
                         meta[key]['dk'] = dk
                         if dk in dedupe:
                             meta[key]['same_as'] = dedupe[dk]
@@ -401,6 +401,8 @@ def numeric_half(R, mod):
                     exact_ok.setdefault(shape, True)
                 R.ob(name, 'discharged' if m['reach'] else 'not_discharged', dt, {'solver': solver}, nontrivial=m['reach'])
                 continue
+            if r == 'error':
+                raise HarnessError(f'{name}: solver error {str(model)[:600]}')
             if r != 'sat':
                 if mode == 'exact':
                     exact_ok[shape] = False
